@@ -11,8 +11,8 @@ EXTENDS Integers
 CONSTANTS MaxP, MaxCap, MaxRest
 VARIABLES a, chosen
 W == INSTANCE Writer WITH MaxChunks <- 0, MaxSize <- 0, LatchError <- TRUE, CountAccepted <- TRUE,
-       KeepFirstError <- FALSE, Modes <- {}, Pieces <- {}, GivenFile <- "",
-       stage <- "cfg", w <- 0, chunks <- <<>>, fw <- 0, obs <- 0, delivered <- <<>>
+       KeepFirstError <- FALSE, Modes <- {}, Pieces <- {}, GivenFile <- "", MaxCalls <- 1, LaterModes <- {}, FreshPerCall <- TRUE,
+       stage <- "cfg", w <- 0, chunks <- <<>>, fw <- 0, obs <- 0, delivered <- <<>>, sess <- 0
 Init == chosen = FALSE /\ a = <<>>
 Next == /\ ~chosen /\ chosen' = TRUE
         /\ a' \in {"never", "whole", "prefix"} \X BOOLEAN \X (1..MaxP) \X (0..MaxCap) \X BOOLEAN \X (0..MaxRest)
